@@ -135,60 +135,72 @@ Proof.
 Qed.
 
 Definition concerns (i : N) (ev : bevent) : bool :=
-  match ev with BCreate j _ _ | BSet j _ | BUse j | BUseCls j => N.eqb i j end.
+  match ev with
+  | BCreate j _ _ | BSet j _ | BUse j | BUseCls j | BGet j _ | BGetCls j _ => N.eqb i j
+  | BPrep _ => false
+  end.
+
+(* the event puts a (new) bound job into the variable h *)
+Definition obtains (h : N) (ev : bevent) : bool :=
+  match ev with BGet _ k | BGetCls _ k => N.eqb h k | _ => false end.
 
 (* the non-mutating binding never changes the shared descriptor *)
-Lemma bstep_shared st ev : bs_shared (fst (bstep false st ev)) = bs_shared st.
+Lemma bstep_shared st ev : bs_shared (fst (bstep MCopy st ev)) = bs_shared st.
 Proof.
   destruct ev; simpl; try reflexivity.
   all: destruct (nget i (bs_drivers st)) as [[c s]|]; reflexivity.
 Qed.
 
-Lemma brun_shared evs : forall st, bs_shared (fst (brun false st evs)) = bs_shared st.
+Lemma brun_shared evs : forall st, bs_shared (fst (brun MCopy st evs)) = bs_shared st.
 Proof.
   induction evs as [|ev r IH]; intro st; simpl; [reflexivity|].
-  destruct (bstep false st ev) as [st1 o] eqn:E1. destruct (brun false st1 r) as [st2 os] eqn:E2. simpl.
+  destruct (bstep MCopy st ev) as [st1 o] eqn:E1. destruct (brun MCopy st1 r) as [st2 os] eqn:E2. simpl.
   specialize (IH st1). rewrite E2 in IH. simpl in IH. rewrite IH.
   pose proof (bstep_shared st ev) as H. now rewrite E1 in H.
 Qed.
 
 (* an event about another driver leaves driver i's entry alone *)
 Lemma bstep_other_driver i st ev : concerns i ev = false ->
-  nget i (bs_drivers (fst (bstep false st ev))) = nget i (bs_drivers st).
+  nget i (bs_drivers (fst (bstep MCopy st ev))) = nget i (bs_drivers st).
 Proof.
-  intro Hc. destruct ev as [j c s|j s|j|j]; simpl in *; apply N.eqb_neq in Hc.
+  intro Hc. destruct ev as [j c s|j s|j|j|j h|j h|h]; simpl in *; try apply N.eqb_neq in Hc.
   - now apply nget_nset_other.
   - destruct (nget j (bs_drivers st)) as [[c0 s0]|]; simpl; [now apply nget_nset_other|reflexivity].
   - destruct (nget j (bs_drivers st)) as [[c0 s0]|]; reflexivity.
   - destruct (nget j (bs_drivers st)) as [[c0 s0]|]; reflexivity.
+  - destruct (nget j (bs_drivers st)) as [[c0 s0]|]; reflexivity.
+  - destruct (nget j (bs_drivers st)) as [[c0 s0]|]; reflexivity.
+  - reflexivity.
 Qed.
 
 (* an event about driver i acts on i's entry the same way in any two states that agree on it *)
 Lemma bstep_same_driver i st st' ev : concerns i ev = true ->
   bs_shared st = bs_shared st' -> nget i (bs_drivers st) = nget i (bs_drivers st') ->
-  nget i (bs_drivers (fst (bstep false st ev))) = nget i (bs_drivers (fst (bstep false st' ev)))
-  /\ snd (bstep false st ev) = snd (bstep false st' ev).
+  nget i (bs_drivers (fst (bstep MCopy st ev))) = nget i (bs_drivers (fst (bstep MCopy st' ev)))
+  /\ snd (bstep MCopy st ev) = snd (bstep MCopy st' ev).
 Proof.
-  intros Hc Hs Hd. destruct ev as [j c s|j s|j|j]; simpl in *; apply N.eqb_eq in Hc; subst j.
+  intros Hc Hs Hd. destruct ev as [j c s|j s|j|j|j h|j h|h]; simpl in *; try discriminate; apply N.eqb_eq in Hc; subst j.
   - now rewrite !nget_nset_same.
   - rewrite <- Hd. destruct (nget i (bs_drivers st)) as [[c0 s0]|] eqn:E; simpl.
     + now rewrite !nget_nset_same.
     + now rewrite E, <- Hd.
   - rewrite <- Hd, <- Hs. destruct (nget i (bs_drivers st)) as [[c0 s0]|] eqn:E; simpl; [now rewrite E, <- Hd | now rewrite E, <- Hd].
   - rewrite <- Hd, <- Hs. destruct (nget i (bs_drivers st)) as [[c0 s0]|] eqn:E; simpl; [now rewrite E, <- Hd | now rewrite E, <- Hd].
+  - rewrite <- Hd, <- Hs. destruct (nget i (bs_drivers st)) as [[c0 s0]|] eqn:E; simpl; [now rewrite E, <- Hd | now rewrite E, <- Hd].
+  - rewrite <- Hd, <- Hs. destruct (nget i (bs_drivers st)) as [[c0 s0]|] eqn:E; simpl; [now rewrite E, <- Hd | now rewrite E, <- Hd].
 Qed.
 
 Lemma brun_filter i evs : forall st st',
   bs_shared st = bs_shared st' -> nget i (bs_drivers st) = nget i (bs_drivers st') ->
-  bs_shared (fst (brun false st evs)) = bs_shared (fst (brun false st' (filter (concerns i) evs)))
-  /\ nget i (bs_drivers (fst (brun false st evs))) = nget i (bs_drivers (fst (brun false st' (filter (concerns i) evs)))).
+  bs_shared (fst (brun MCopy st evs)) = bs_shared (fst (brun MCopy st' (filter (concerns i) evs)))
+  /\ nget i (bs_drivers (fst (brun MCopy st evs))) = nget i (bs_drivers (fst (brun MCopy st' (filter (concerns i) evs)))).
 Proof.
   induction evs as [|ev r IH]; intros st st' Hs Hd; simpl; [now split|].
-  destruct (bstep false st ev) as [st1 o] eqn:E1.
-  destruct (brun false st1 r) as [st2 os] eqn:E2. simpl.
+  destruct (bstep MCopy st ev) as [st1 o] eqn:E1.
+  destruct (brun MCopy st1 r) as [st2 os] eqn:E2. simpl.
   destruct (concerns i ev) eqn:Hc; simpl.
-  - destruct (bstep false st' ev) as [st1' o'] eqn:E1'.
-    destruct (brun false st1' (filter (concerns i) r)) as [st2' os'] eqn:E2'. simpl.
+  - destruct (bstep MCopy st' ev) as [st1' o'] eqn:E1'.
+    destruct (brun MCopy st1' (filter (concerns i) r)) as [st2' os'] eqn:E2'. simpl.
     destruct (bstep_same_driver i st st' ev Hc Hs Hd) as [Hd1 _]. rewrite E1, E1' in Hd1. simpl in Hd1.
     assert (Hs1 : bs_shared st1 = bs_shared st1').
     { pose proof (bstep_shared st ev) as A. pose proof (bstep_shared st' ev) as B. rewrite E1 in A. rewrite E1' in B.
@@ -201,26 +213,134 @@ Proof.
     specialize (IH st1 st' Hs1 Hd1). now rewrite E2 in IH.
 Qed.
 
-(* what using driver i yields after a history *)
+(* what obtaining the job through driver i and using it at once yields after a history *)
 Definition use_after (decl : settings) (evs : list bevent) (i : N) : option bound :=
-  snd (bstep false (fst (brun false (binit decl) evs)) (BUse i)).
+  snd (bstep MCopy (fst (brun MCopy (binit decl) evs)) (BUse i)).
+(* the same through driver i's class *)
+Definition usecls_after (decl : settings) (evs : list bevent) (i : N) : option bound :=
+  snd (bstep MCopy (fst (brun MCopy (binit decl) evs)) (BUseCls i)).
+(* what using the bound job KEPT in variable h yields after a history *)
+Definition held_after (decl : settings) (evs : list bevent) (h : N) : option bound :=
+  snd (bstep MCopy (fst (brun MCopy (binit decl) evs)) (BPrep h)).
 
 Theorem binding_value decl evs i c s :
-  nget i (bs_drivers (fst (brun false (binit decl) evs))) = Some (c, s) ->
+  nget i (bs_drivers (fst (brun MCopy (binit decl) evs))) = Some (c, s) ->
   use_after decl evs i = Some (bind decl c s).
 Proof.
   intro H. unfold use_after. simpl. rewrite H. simpl.
   now rewrite brun_shared.
 Qed.
 
-(* ... and it is the same as if the other drivers had never been created, reassigned or used *)
+(* ... and it is the same as if the other drivers had never been created, reassigned, used or had their jobs
+   obtained and kept *)
 Theorem binding_independent decl evs i :
   use_after decl evs i = use_after decl (filter (concerns i) evs) i.
 Proof.
   unfold use_after.
   destruct (brun_filter i evs (binit decl) (binit decl) eq_refl eq_refl) as [Hs Hd].
   simpl. rewrite <- Hd, <- Hs.
-  destruct (nget i (bs_drivers (fst (brun false (binit decl) evs)))) as [[c s]|]; reflexivity.
+  destruct (nget i (bs_drivers (fst (brun MCopy (binit decl) evs)))) as [[c s]|]; reflexivity.
+Qed.
+
+Theorem binding_independent_cls decl evs i :
+  usecls_after decl evs i = usecls_after decl (filter (concerns i) evs) i.
+Proof.
+  unfold usecls_after.
+  destruct (brun_filter i evs (binit decl) (binit decl) eq_refl eq_refl) as [Hs Hd].
+  simpl. rewrite <- Hd, <- Hs.
+  destruct (nget i (bs_drivers (fst (brun MCopy (binit decl) evs)))) as [[c s]|]; reflexivity.
+Qed.
+
+(* ---- held bound jobs: a bound job is a VALUE fixed at the moment it is obtained *)
+Lemma brun_app m evs1 : forall st evs2,
+  fst (brun m st (evs1 ++ evs2)) = fst (brun m (fst (brun m st evs1)) evs2).
+Proof.
+  induction evs1 as [|ev r IH]; intros st evs2; simpl; [reflexivity|].
+  destruct (bstep m st ev) as [st1 o] eqn:E1.
+  specialize (IH st1 evs2).
+  destruct (brun m st1 (r ++ evs2)) as [st2 os] eqn:E2.
+  destruct (brun m st1 r) as [st3 os3] eqn:E3. simpl in *. exact IH.
+Qed.
+
+(* no event other than obtaining into h changes what h holds: not creating, reassigning (even the driver h was
+   obtained through), using or obtaining-and-keeping through ANY driver, nor using any kept job *)
+Lemma bstep_held_other h st ev : obtains h ev = false ->
+  nget h (bs_held (fst (bstep MCopy st ev))) = nget h (bs_held st).
+Proof.
+  intro Ho. destruct ev as [j c s|j s|j|j|j k|j k|k]; simpl in *; try reflexivity.
+  - destruct (nget j (bs_drivers st)) as [[c0 s0]|]; reflexivity.
+  - destruct (nget j (bs_drivers st)) as [[c0 s0]|]; reflexivity.
+  - destruct (nget j (bs_drivers st)) as [[c0 s0]|]; reflexivity.
+  - apply N.eqb_neq in Ho. destruct (nget j (bs_drivers st)) as [[c0 s0]|]; simpl; [now apply nget_nset_other|reflexivity].
+  - apply N.eqb_neq in Ho. destruct (nget j (bs_drivers st)) as [[c0 s0]|]; simpl; [now apply nget_nset_other|reflexivity].
+Qed.
+
+Lemma brun_held_keep h evs : forall st, forallb (fun ev => negb (obtains h ev)) evs = true ->
+  nget h (bs_held (fst (brun MCopy st evs))) = nget h (bs_held st).
+Proof.
+  induction evs as [|ev r IH]; intros st Hall; simpl; [reflexivity|].
+  simpl in Hall. apply andb_true_iff in Hall. destruct Hall as [H1 H2]. apply negb_true_iff in H1.
+  destruct (bstep MCopy st ev) as [st1 o] eqn:E1. destruct (brun MCopy st1 r) as [st2 os] eqn:E2. simpl.
+  specialize (IH st1 H2). rewrite E2 in IH. simpl in IH. rewrite IH.
+  pose proof (bstep_held_other h st ev H1) as A. now rewrite E1 in A.
+Qed.
+
+(* `h = d_i.job` at some moment, then ANY continuation that does not put another object into h: using h yields
+   exactly what using driver i at the moment of obtaining would have yielded *)
+Lemma brun_cons_fst m st ev r : fst (brun m st (ev :: r)) = fst (brun m (fst (bstep m st ev)) r).
+Proof. simpl. destruct (bstep m st ev) as [st1 o]. simpl. destruct (brun m st1 r) as [st2 os]. reflexivity. Qed.
+
+Lemma held_after_split decl evs1 ev h evs2 :
+  forallb (fun ev => negb (obtains h ev)) evs2 = true ->
+  held_after decl (evs1 ++ ev :: evs2) h
+  = nget h (bs_held (fst (bstep MCopy (fst (brun MCopy (binit decl) evs1)) ev))).
+Proof.
+  intro Hall. unfold held_after. rewrite brun_app, brun_cons_fst.
+  cbn [bstep snd]. now apply brun_held_keep.
+Qed.
+
+Theorem held_fixed decl evs1 i h evs2 b :
+  use_after decl evs1 i = Some b ->
+  forallb (fun ev => negb (obtains h ev)) evs2 = true ->
+  held_after decl (evs1 ++ BGet i h :: evs2) h = Some b.
+Proof.
+  intros Hu Hall. rewrite held_after_split by exact Hall.
+  unfold use_after in Hu. cbn [bstep] in *.
+  destruct (nget i (bs_drivers (fst (brun MCopy (binit decl) evs1)))) as [[c s]|]; [|discriminate].
+  cbn [fst snd after_access bs_held] in *. rewrite nget_nset_same. exact Hu.
+Qed.
+
+Theorem held_fixed_cls decl evs1 i h evs2 b :
+  usecls_after decl evs1 i = Some b ->
+  forallb (fun ev => negb (obtains h ev)) evs2 = true ->
+  held_after decl (evs1 ++ BGetCls i h :: evs2) h = Some b.
+Proof.
+  intros Hu Hall. rewrite held_after_split by exact Hall.
+  unfold usecls_after in Hu. cbn [bstep] in *.
+  destruct (nget i (bs_drivers (fst (brun MCopy (binit decl) evs1)))) as [[c s]|]; [|discriminate].
+  cbn [fst snd after_access bs_held] in *. rewrite nget_nset_same. exact Hu.
+Qed.
+
+(* ... hence it depends on nothing but the events about driver i BEFORE the job was obtained: every other driver
+   (created, used, obtained from before or after) and everything after the obtain is erased *)
+Theorem held_independent decl evs1 i h evs2 b :
+  use_after decl evs1 i = Some b ->
+  forallb (fun ev => negb (obtains h ev)) evs2 = true ->
+  held_after decl (evs1 ++ BGet i h :: evs2) h = use_after decl (filter (concerns i) evs1) i
+  /\ held_after decl (evs1 ++ BGet i h :: evs2) h = held_after decl (filter (concerns i) evs1 ++ [BGet i h]) h.
+Proof.
+  intros Hu Hall. rewrite (held_fixed decl evs1 i h evs2 b Hu Hall). split.
+  - now rewrite <- binding_independent.
+  - symmetry. apply held_fixed; [now rewrite <- binding_independent | reflexivity].
+Qed.
+
+(* the value of a kept job in terms of the driver's attributes at the moment of obtaining *)
+Theorem held_value decl evs1 i h evs2 c s :
+  nget i (bs_drivers (fst (brun MCopy (binit decl) evs1))) = Some (c, s) ->
+  forallb (fun ev => negb (obtains h ev)) evs2 = true ->
+  held_after decl (evs1 ++ BGet i h :: evs2) h = Some (bind decl c s).
+Proof.
+  intros Hd Hall. apply held_fixed; [now apply binding_value | exact Hall].
 Qed.
 
 (* a Job declared without own settings in a class without such attributes (every shipped driver):
@@ -240,11 +360,53 @@ Definition sticky_witness : list bevent :=
    BCreate 2 no_settings (mk_settings (Some "bash") (Some 8%N) None (Some [("B", "2")]));
    BUse 1; BUse 2].
 Lemma sticky_refuted :
-  nth 3 (snd (brun true (binit no_settings) sticky_witness)) None
+  nth 3 (snd (brun MSticky (binit no_settings) sticky_witness)) None
   = Some (mk_bound (Some "sh") 4 1000 [("B", "2"); ("A", "1")])
-  /\ nth 3 (snd (brun false (binit no_settings) sticky_witness)) None
+  /\ nth 3 (snd (brun MCopy (binit no_settings) sticky_witness)) None
   = Some (mk_bound (Some "bash") 8 1000 [("B", "2")]).
 Proof. split; reflexivity. Qed.
+
+(* the variant that hands out one bound object per descriptor and refreshes it on every access is correct on every
+   history that uses a job immediately after obtaining it, and wrong as soon as two jobs are held side by side:
+   ja = d1.job; jb = d2.job; ja.prepare(x) sees d2's executable, nprocs and environment *)
+Definition shared_witness : list bevent :=
+  [BCreate 1 no_settings (mk_settings (Some "sh") (Some 4%N) None (Some [("A", "1")]));
+   BCreate 2 no_settings (mk_settings (Some "bash") (Some 8%N) None (Some [("B", "2")]));
+   BGet 1 0; BGet 2 1; BPrep 0; BPrep 1].
+Lemma shared_refuted :
+  nth 4 (snd (brun MShared (binit no_settings) shared_witness)) None
+  = Some (mk_bound (Some "bash") 8 1000 [("B", "2")])
+  /\ nth 4 (snd (brun MCopy (binit no_settings) shared_witness)) None
+  = Some (mk_bound (Some "sh") 4 1000 [("A", "1")]).
+Proof. split; reflexivity. Qed.
+
+(* on histories without kept jobs the refreshing variant is indistinguishable from the fresh copy -- which is why
+   histories that always use a job at once cannot tell them apart *)
+Definition immediate (ev : bevent) : bool :=
+  match ev with BGet _ _ | BGetCls _ _ | BPrep _ => false | _ => true end.
+Lemma shared_step_immediate st ev : immediate ev = true -> bs_held st = [] ->
+  bstep MShared st ev = bstep MCopy st ev.
+Proof.
+  intros Hi Hh. destruct ev as [j c s|j s|j|j|j k|j k|k]; simpl in *; try discriminate; try reflexivity.
+  - destruct (nget j (bs_drivers st)) as [[c0 s0]|]; [|reflexivity]. unfold after_access. now rewrite Hh.
+  - destruct (nget j (bs_drivers st)) as [[c0 s0]|]; [|reflexivity]. unfold after_access. now rewrite Hh.
+Qed.
+Lemma step_immediate_held st ev : immediate ev = true -> bs_held st = [] ->
+  bs_held (fst (bstep MCopy st ev)) = [].
+Proof.
+  intros Hi Hh. destruct ev as [j c s|j s|j|j|j k|j k|k]; simpl in *; try discriminate; try exact Hh.
+  all: destruct (nget j (bs_drivers st)) as [[c0 s0]|]; simpl; exact Hh.
+Qed.
+Theorem shared_invisible_when_immediate evs : forall st,
+  forallb immediate evs = true -> bs_held st = [] -> brun MShared st evs = brun MCopy st evs.
+Proof.
+  induction evs as [|ev r IH]; intros st Hall Hh; simpl; [reflexivity|].
+  simpl in Hall. apply andb_true_iff in Hall. destruct Hall as [H1 H2].
+  rewrite (shared_step_immediate st ev H1 Hh).
+  destruct (bstep MCopy st ev) as [st1 o] eqn:E1.
+  pose proof (step_immediate_held st ev H1 Hh) as A. rewrite E1 in A. simpl in A.
+  now rewrite (IH st1 H2 A).
+Qed.
 
 (* ================================================================== (ii) run_local *)
 Section RunLocalFacts.
